@@ -28,11 +28,20 @@ let () =
   let steps = ref 0 in
   let open_tokens : (int, int) Hashtbl.t = Hashtbl.create 8 in  (* worker -> slot *)
   let maxopen = ref 0 and enters = ref 0 and fulls = ref 0 in
+  let begins : (int, bool) Hashtbl.t = Hashtbl.create 8 in   (* slot -> begin epoch currently non-zero *)
+  let check_counted seq =
+    Hashtbl.iter (fun w i ->
+        if not (try Hashtbl.find begins i with Not_found -> false) then begin
+          Printf.printf "VIOLATION open session of worker %d (slot %d) has begin epoch 0: not counted by the reclamation protocol (seq %d)\n" w i seq;
+          exit 0 end) open_tokens in
   let exception Rej of int * string in
+  let rejected = ref None in
+  (* after the first rejection the model state is void: keep evaluating the property oracle on the rest of the log *)
   let apply seq e =
-    match sstep nn !st e with
-    | Some s' -> st := s'; incr steps
-    | None -> raise (Rej (seq, "model cannot take the step")) in
+    if !rejected = None then
+      match sstep nn !st e with
+      | Some s' -> st := s'; incr steps
+      | None -> rejected := Some (seq, "model cannot take the step") in
   (try
      List.iter (fun it ->
          match it with
@@ -51,6 +60,7 @@ let () =
                 if Hashtbl.length open_tokens > !n then begin
                   Printf.printf "VIOLATION more than %d sessions open (seq %d)\n" !n seq; exit 0 end;
                 maxopen := max !maxopen (Hashtbl.length open_tokens);
+                check_counted seq;
                 apply seq (EnterRet (nat_of_int w, Some (nat_of_int i)))
               | None -> raise (Rej (seq, "token outside the table")))
            end
@@ -70,10 +80,14 @@ let () =
                | _ -> ())
             | 5, 2, Some i -> apply seq (CasRunning (t, nat_of_int i, ok = 1))
             | 6, 1, Some i ->
+              Hashtbl.replace begins i (v <> N0);
+              check_counted seq;
               if v = N0 then apply seq (ClearBegin (t, nat_of_int i))
               else apply seq (StoreBegin (t, nat_of_int i, v))
             | 5, 1, Some i -> if v = N0 then apply seq (ClearRunning (t, nat_of_int i))
             | _ -> ())
          | E _ -> ()) items;
-     Printf.printf "ACCEPT model_steps=%d enters=%d full=%d max_open=%d capacity=%d\n" !steps !enters !fulls !maxopen !n
+     (match !rejected with
+      | None -> Printf.printf "ACCEPT model_steps=%d enters=%d full=%d max_open=%d capacity=%d\n" !steps !enters !fulls !maxopen !n
+      | Some (s, why) -> Printf.printf "REJECT %d %s\n" s why)
    with Rej (s, why) -> Printf.printf "REJECT %d %s\n" s why)
